@@ -45,6 +45,11 @@ def _line(draw):
         return {"k": "info", "text": draw(info_st)}
     t = draw(st.sampled_from(TYPES))
     desc = draw(desc_st)
+    if k in ("l1", "l2empty", "l4emptysel") and draw(st.integers(0, 2)) == 0:
+        # the description doubles as the selector: one that is an absolute path or a URL: link stays that
+        desc = draw(st.sampled_from(["/pub", "/pub/files", "URL:http://example.org/", "URL:mailto:a@example.org", "/"]))
+        if desc.startswith("URL:"):
+            t = "h"  # (as for every generated URL: link)
     pad = draw(st.sampled_from(["", "", "", " "]))
     if k == "l1":
         f = [t + desc, None]  # 'Tdesc TAB' with nothing after it
